@@ -233,6 +233,13 @@ impl<'a> CompilerState<'a> {
         self.variables.get(name).unwrap()
     }
 
+    /// The variable an identifier of the source refers to: it may name a function or a register instead
+    pub fn get_variable_or_error(&self, name: &str, pos: usize) -> Result<&Variable, Error> {
+        self.variables
+            .get(name)
+            .ok_or_else(|| self.syntax_error(&format!("{} is not a variable", name), pos))
+    }
+
     pub fn sorted_functions(&self) -> Vec<(&String, &Function<'a>)> {
         let mut v: Vec<(&String, &Function)> = self.functions.iter().collect();
         v.sort_by(|a, b| a.1.order.cmp(&b.1.order));
